@@ -77,6 +77,8 @@ type faultServer struct {
 	failAt    map[string]map[int]bool
 	delivered []string
 	perKey    map[string]int // "METHOD path" -> number of 500s answered
+	refuse    int            // status for faulted PUTs instead of 500 (4xx: final)
+	refused   int            // PUTs answered with it
 }
 
 var serverCounter uint32
@@ -112,7 +114,14 @@ func (fs *faultServer) start(next http.Handler) {
 		fs.mu.Unlock()
 		if fail {
 			io.Copy(io.Discard, r.Body)
-			http.Error(w, "injected failure", http.StatusInternalServerError)
+			status := http.StatusInternalServerError
+			if fs.refuse >= 400 && fs.refuse < 500 && r.Method == "PUT" {
+				status = fs.refuse
+				fs.mu.Lock()
+				fs.refused++
+				fs.mu.Unlock()
+			}
+			http.Error(w, "injected failure", status)
 			return
 		}
 		next.ServeHTTP(w, r)
